@@ -47,7 +47,16 @@ const DOCS: [&str; 10] = [
     r#"{"k":0}"#,
 ];
 const NTAGS: u64 = 3; // referenced rows t0..t2 (they take the rowids 1..3)
+/// the entity of the scenarios is not full-text indexed: with the index, a stale write of class 1 can
+/// also make the whole batch fail (see observe_fts_conflict); index maintenance belongs to C17
 const MODEL: &str = r#"ns {
+    Row(no_full_text_index) { f0: Integer nullable, f1: Integer default 70, f2: Integer default 90, f3: String default "s30",
+          f4: Json nullable, f5: Json default "{\"k\":0}",
+          tags: [ns.Tag] nullable, owner: ns.Tag nullable, more: [ns.Tag] nullable }
+    Tag { n: Integer nullable }
+}"#;
+/// the same entity with the default full-text index (observation only)
+const MODEL_FTS: &str = r#"ns {
     Row { f0: Integer nullable, f1: Integer default 70, f2: Integer default 90, f3: String default "s30",
           f4: Json nullable, f5: Json default "{\"k\":0}",
           tags: [ns.Tag] nullable, owner: ns.Tag nullable, more: [ns.Tag] nullable }
@@ -216,7 +225,7 @@ fn room_with(id: u64, vk: Option<&[u8]>, revoked_from: Option<i64>) -> Room {
 }
 
 impl Env {
-    fn new(dir: &PathBuf) -> Env {
+    fn new(dir: &PathBuf, model: &str) -> Env {
         let _ = std::fs::remove_dir_all(dir);
         std::fs::create_dir_all(dir).unwrap();
         let path = dir.join("c16.db");
@@ -229,7 +238,7 @@ impl Env {
         wconn.pragma_update(None, "synchronous", "0").unwrap();
         let mut dm = DataModel::new();
         dm.update_system(SYSTEM_DATA_MODEL).unwrap();
-        dm.update(MODEL).unwrap();
+        dm.update(model).unwrap();
         let shorts = Shorts::of(&dm);
         let sk = Ed25519SigningKey::create_from(&[7u8; 32]);
         let vk = sk.export_verifying_key();
@@ -758,6 +767,32 @@ fn observe_propagate_room(env: &mut Env) -> serde_json::Value {
            "referenced_row_room_after": (1..=4).find(|k| tag_room == Some(uid_of(*k)))})
 }
 
+/// with the default full-text index: R1 R2 V1 W1 V2 W2 on one row whose Json document contains text;
+/// the second (stale) write asks the index to remove a text it no longer holds (observation only)
+fn observe_fts_conflict(dir: &PathBuf) -> serde_json::Value {
+    let mut env = Env::new(dir, MODEL_FTS);
+    let s = Scen { rows: vec![row_json(Some(100), None)], muts: vec![m(1, None, &[(4, 101)], &[]), m(1, None, &[(4, 103)], &[])] };
+    env.reset(&s);
+    let mut pend = vec![];
+    for i in 0..2 {
+        verif_clock::set(BASE + mdate_of(i));
+        let (text, mut params) = request_text(&s.muts[i], &env.ids, &env.tags);
+        let p = env.parser(&text);
+        pend.push(MutationQuery::execute(&mut params, p, &env.rconn).unwrap());
+    }
+    let mut results = vec![];
+    for mq in pend.iter_mut() {
+        env.ra.validate_mutation(mq).unwrap();
+        env.begin();
+        let r = mq.write(&env.wconn);
+        match &r { Ok(_) => env.commit(), Err(_) => { env.wconn.execute("ROLLBACK", []).unwrap(); env.in_txn = false; } }
+        results.push(match r { Ok(_) => "written".to_string(), Err(e) => format!("write failed: {}", e) });
+    }
+    verif_clock::clear();
+    json!({"entity": "Row with the default full-text index", "schedule": "R1 R2 V1 W1 V2 W2", "first_write": results[0], "second_write_from_the_stale_snapshot": results[1],
+           "note": "process_batch_write rolls the whole batch back and answers every request of the batch with this error"})
+}
+
 /// the real service, strictly sequential callers: every request is awaited before the next
 struct Svc { rt: tokio::runtime::Runtime, app: GraphDatabaseService, shorts: Shorts }
 impl Svc {
@@ -831,7 +866,7 @@ fn main() {
     eprintln!("c16: stream observation {:?}", t0.elapsed());
     out.push(Case { kind: "stream-observation".into(), coq: "CNote".into(), obs: vec![], meta: stream });
 
-    let mut rn = Runner { env: Env::new(&dir.join("db")), svc: Svc::start(&dir.join("svc_seq")), serial_cache: HashMap::new(),
+    let mut rn = Runner { env: Env::new(&dir.join("db"), MODEL), svc: Svc::start(&dir.join("svc_seq")), serial_cache: HashMap::new(),
                           n_serializable: 0, n_not: 0, n_overlap: 0, n_sequential: 0, n_refused: 0, n_with_create_or_delete: 0 };
     let sched2 = all_schedules(2);
     let sched3 = all_schedules(3);
@@ -843,6 +878,8 @@ fn main() {
     for (name, s) in directed().iter().take(3) { let c = rn.case(&format!("witness:{}", name), s, &lost, false); out.push(c); }
     { let d = directed3(); let (name, s) = &d[0]; let c = rn.case(&format!("witness:{}", name), s, &reuse_sigma(), false); out.push(c); }
     { let d = directed(); let (name, s) = &d[3]; let c = rn.case(&format!("witness:{}", name), s, &serial_sched(&[0, 1]), false); out.push(c); }
+    let fts = observe_fts_conflict(&dir.join("db_fts"));
+    out.push(Case { kind: "full-text-index-observation".into(), coq: "CNote".into(), obs: vec![], meta: fts });
     let prop = observe_propagate_room(&mut rn.env);
     out.push(Case { kind: "propagate-room-observation".into(), coq: "CNote".into(), obs: vec![], meta: prop });
 
